@@ -4,7 +4,7 @@
    the tables are the ones GENERATED from the repo (Gen/C18_tables.v). *)
 From Coq Require Import Bool Arith ZArith Ascii String List.
 From CBI Require Import Lib.Res Lib.C18_str Model.C01 Spec.C01 Model.C04 Spec.C04 Model.C18 Spec.C18
-                        Gen.C18_tables Spec.C18t Model.C18i Proofs.C18s Proofs.C18 Proofs.C18d.
+                        Gen.C18_tables Spec.C18t Model.C18i Proofs.C18s Proofs.C18 Proofs.C18d Proofs.C18m.
 Import ListNotations.
 Local Open Scope string_scope.
 Local Open Scope list_scope.
@@ -15,8 +15,8 @@ Local Open Scope list_scope.
    accepts them, the model of codebasin issues exactly the reference's missing-include events
    - same file, line, requested name and form, same multiplicity, same order - and visits the
    same files.  The reference issues one event per REACHED include whose un-memoised search
-   finds no file (Spec/C04.v exec_S), so a header included n times contributes n times and an
-   include in a skipped group contributes nothing. *)
+   finds no file (Spec/C04.v exec_S), so a header whose body is evaluated n times contributes n
+   times and an include in a skipped group contributes nothing. *)
 Theorem C18_one_per_occurrence :
   forall (fs : fsys), fs_structured fs ->
   forall (fuel : nat) (es : list entry) (evs : list event) (visited : list path),
@@ -25,7 +25,7 @@ Proof. exact run_entries_sim. Qed.
 Print Assumptions C18_one_per_occurrence.
 
 (* The memo does not suppress.  In every platform state whose memo is sound (every reachable
-   state: the memo starts empty and C04_memo_transparent keeps it sound), an include whose
+   state: C18_memo_sound_reachable below), an include whose
    search fails issues its event - in particular when the failure is answered FROM the memo -
    and leaves the state such that the next evaluation warns again: n evaluations, n events. *)
 Theorem C18_memo_does_not_suppress :
@@ -44,6 +44,17 @@ Proof.
   - intros n p. apply missing_include_times.
 Qed.
 Print Assumptions C18_memo_does_not_suppress.
+
+(* ... and every state in which a node is evaluated IS sound, for every file system (structured
+   or not), every include depth and every entry, whether or not the reference accepts the unit:
+   the model with a guard that refuses to evaluate a node when some binding of the memo differs
+   from the un-memoised search (exec_G) computes exactly what the model computes - the guard
+   never fires; and a memo all of whose bindings are right is sound in the sense used above. *)
+Theorem C18_memo_sound_reachable :
+  (forall fs fuel e, run_tu_G fs fuel e = run_tu_M fs fuel e) /\
+  (forall fs p, memo_sound_b fs p = true -> memo_sound fs p).
+Proof. split; [exact guard_never_fires|exact sound_b_sound]. Qed.
+Print Assumptions C18_memo_sound_reachable.
 
 (* The form label.  Every event of an accepted run stems from an #include directive in the
    named file at the named line; a quote directive yields a 'user include' event for the name
